@@ -19,12 +19,14 @@ import (
 	"pgregory.net/rapid"
 
 	"verif/internal/ev"
+	"verif/internal/hook"
+	"verif/internal/scribble"
 )
 
 func TestMain(m *testing.M) {
 	ev.Describe("rapid histories (3..40 steps) of AddErrors/AddWarnings/Merge/MergeAsErrors/MergeAsWarnings/Inc/operand edits over 2..5 results incl. nil, aliased and pre-filled ones; "+
 		"non-trivial = at least 6 steps, a message that is offered to a result already holding it, and an operand mutated after it was merged; distinct by content hash of the history",
-		"results are created through the public API only (new(Result), struct literals with the exported fields), so none is owned by the pools",
+		"results are created through the public API (new(Result), struct literals with the exported fields) or, one slot in four, taken from the library's pool of results through the verif hook: such an operand is handed back to the pool when merged, the harness overwrites it at that instant, and the slot is dropped from the history",
 		"typed-nil error values are not generated (the statement's 'ignores nils' is read as untyped nil)")
 	ev.Main(m, "C20")
 }
@@ -47,6 +49,10 @@ type Slot struct {
 	Errs    []string `json:"errs,omitempty"`
 	Warns   []string `json:"warns,omitempty"`
 	Count   int      `json:"count,omitempty"`
+	// Pooled: the result comes from the library's pool of results (as the validators' intermediate results do) and is
+	// filled through AddErrors / AddWarnings / Inc; merging it into another result hands it back to the pool, where
+	// the harness overwrites it: from then on the slot is gone
+	Pooled bool `json:"pooled,omitempty"`
 }
 
 type Case struct {
@@ -84,6 +90,9 @@ func gen(t *rapid.T) Case {
 			s.Errs = dedup(genMsgs(t, false))
 			s.Warns = dedup(genMsgs(t, false))
 			s.Count = rapid.IntRange(0, 3).Draw(t, "count")
+		}
+		if !s.Nil && s.AliasOf < 0 && i > 0 {
+			s.Pooled = rapid.IntRange(0, 3).Draw(t, "pooled") == 0
 		}
 		c.Slots = append(c.Slots, s)
 	}
@@ -205,6 +214,11 @@ func check(c Case) (out ev.Outcome) {
 			out = ev.Failf("panic: %v", r)
 		}
 	}()
+	hook.ResetPools()
+	hook.SetRedeemHook(func(obj any) bool { scribble.Scribble(obj, true); return false })
+	defer hook.ResetPools()
+	defer hook.SetRedeemHook(nil)
+	pooled := map[*validate.Result]bool{}
 	n := len(c.Slots)
 	res := make([]*validate.Result, n)
 	mod := make([]*model, n)
@@ -213,6 +227,15 @@ func check(c Case) (out ev.Outcome) {
 		case s.Nil:
 		case s.AliasOf >= 0 && s.AliasOf < i:
 			res[i], mod[i] = res[s.AliasOf], mod[s.AliasOf]
+		case s.Pooled && hook.Enabled:
+			res[i] = hook.BorrowResult()
+			res[i].AddErrors(mkErrs(s.Errs, i)...)
+			res[i].AddWarnings(mkErrs(s.Warns, i+1)...)
+			for j := 0; j < s.Count; j++ {
+				res[i].Inc()
+			}
+			mod[i] = &model{errs: dedup(s.Errs), warns: dedup(s.Warns), count: s.Count}
+			pooled[res[i]] = true
 		default:
 			if len(s.Errs) == 0 && len(s.Warns) == 0 && s.Count == 0 {
 				res[i] = new(validate.Result)
@@ -223,7 +246,7 @@ func check(c Case) (out ev.Outcome) {
 		}
 	}
 	merged := map[*model]bool{} // operands that have been merged into something
-	dupOffered, mutatedAfterMerge := false, false
+	dupOffered, mutatedAfterMerge, usedPooled := false, false, false
 	var classes []string
 	seenKinds := map[string]bool{}
 
@@ -312,6 +335,19 @@ func check(c Case) (out ev.Outcome) {
 			m.count++
 		case "Merge", "MergeAsErrors", "MergeAsWarnings":
 			rs, ms := srcs()
+			// a pooled operand is handed back by the merge: it can be merged once, and not into itself
+			usable := true
+			seenPooled := map[*validate.Result]bool{}
+			for _, o := range rs {
+				if o != nil && pooled[o] && (o == r || seenPooled[o]) {
+					usable = false
+				}
+				seenPooled[o] = o != nil && pooled[o]
+			}
+			if !usable {
+				executed--
+				continue
+			}
 			var ret *validate.Result
 			switch op.Kind {
 			case "Merge":
@@ -345,6 +381,17 @@ func check(c Case) (out ev.Outcome) {
 					merged[om] = true
 				}
 			}
+			for _, o := range rs {
+				if o != nil && pooled[o] {
+					// consumed: the object is back in the pool (and overwritten)
+					usedPooled = true
+					for i := range res {
+						if res[i] == o {
+							res[i], mod[i] = nil, nil
+						}
+					}
+				}
+			}
 		case "EditErr":
 			// a later change to an operand made through its exported field
 			if op.Idx < len(r.Errors) {
@@ -375,6 +422,9 @@ func check(c Case) (out ev.Outcome) {
 	}
 	if mutatedAfterMerge {
 		classes = append(classes, "operand-mutated-after-merge")
+	}
+	if usedPooled {
+		classes = append(classes, "pooled-operand-merged")
 	}
 	for _, s := range c.Slots {
 		if s.Nil {
